@@ -1609,7 +1609,7 @@ rrul_fill_dly(echs_instant_t *restrict tgt, size_t nti, rrulsp_t rr)
 #if defined ECHSE_VERIF
 		     __CPROVER_assigns(y, m, d, maxd)
 		     __CPROVER_loop_invariant(
-			     1U <= m && m <= 12U && 1U <= d && d <= 200U && y <= 2200U && y + d <= 2400U &&
+			     1U <= m && m <= 12U && 1U <= d && d <= 100U && y <= 2200U && y + d <= 2200U &&
 			     maxd == (unsigned int)S_MDAYS(y, m) &&
 			     ((y == __CPROVER_loop_entry(y) && m == __CPROVER_loop_entry(m) && d == __CPROVER_loop_entry(d)) ||
 			      y > __CPROVER_loop_entry(y) || (y == __CPROVER_loop_entry(y) && m > __CPROVER_loop_entry(m))))
